@@ -8,7 +8,9 @@ VARIABLE tid
 VHnp(r) == IF r.raised # "none" THEN "Total"
            ELSE IF ~r.obs.fields_ok THEN "FieldRoundTrip"
            ELSE IF ~r.obs.z_ok THEN "HashTruncation"
-           ELSE IF ~r.obs.relation_ok THEN "NonceRelation" ELSE "ok"
+           ELSE IF ~r.obs.relation_ok THEN "NonceRelation"
+           \* the relation is stated modulo the curve ORDER: the table's n must be the (prime) order of the table's generator
+           ELSE IF ~r.obs.order_ok THEN "ModulusIsTheGroupOrder" ELSE "ok"
 VConv(r) == IF r.raised # "none" THEN "Total"
             ELSE IF ~r.obs.roundtrip THEN "IntBytesRoundTrip"
             ELSE IF ~r.obs.bytes_match_ref THEN "Int2BytesBigEndianMinimal"
